@@ -1,5 +1,5 @@
 SPECIFICATION Spec
 CONSTANTS W = 2
-          N = 96
+          N = 64
 INVARIANTS NatOps IntOps DivRel GcdRel GcdZero SqrtRel RatOps PartRel TextRel
 CHECK_DEADLOCK FALSE
